@@ -49,9 +49,14 @@ def job(spec):
         fch1, foff, C, qn, qd, n = b["fch1"], b["foff"], b["C"], b["qn"], b["qd"], b["n"]
         tsamp = K_TS * qn / qd
         data = rng.integers(0, 200, size=(n, C), dtype=np.int64)
-        p = d / f"c09_{spec['id']}_{bi}.fil"
-        fixtures.write_fil(p, data.ravel(), C, 32, fch1=float(fch1), foff=float(foff), tsamp=tsamp)
-        fil = FilReader(str(p))
+        if bi % 2 == 1 and n >= 9:      # every other band as a contiguous set of three files: streamed dedispersion rewinds across file boundaries
+            a1 = int(rng.integers(1, n // 2))
+            a2 = int(rng.integers(a1 + 1, n - 1))
+            fil = FilReader(fixtures.write_set(d, f"c09_{spec['id']}_{bi}", data, 32, [a1, a2 - a1, n - a2], fch1=float(fch1), foff=float(foff), tsamp=tsamp))
+        else:
+            p = d / f"c09_{spec['id']}_{bi}.fil"
+            fixtures.write_fil(p, data.ravel(), C, 32, fch1=float(fch1), foff=float(foff), tsamp=tsamp)
+            fil = FilReader(str(p))
         X = [[int(x) for x in data[:, c]] for c in range(C)]
         base = {"fch1": fch1, "foff": foff, "C": C, "qn": qn, "qd": qd, "n": n}
         for (pp, rr) in b["dms"]:
